@@ -58,7 +58,8 @@ CLAIMS = {
        "are then run, one child process per case, with RLIMIT_FSIZE at every flush boundary (+-1, header, final flush), "
        "/dev/full and uncreatable paths, for volumes around the buffer threshold; a hang is reported only if the call did "
        "not return and the goroutine dump shows the producer blocked in the buffer's send. Goroutine counts after "
-       "1..16 renders of every entry point are judged against a bound independent of k (FaultTrace.tla).",
+       "1..16 renders of every entry point are judged against a bound independent of k (FaultTrace.tla). "
+       "The goroutine stage also runs fail-then-good and pause histories for every sink under an in-process watchdog that takes a goroutine dump; all watchdogs measure silence (no hook event for an interval), not duration.",
   design_ref="DESIGN.md section 6 C12", technique="TLC liveness checking of the pipeline under sink faults + fault enumeration on the real code in child processes + TLC trace judgement",
   note=TB + " Fault points are enumerated per flush boundary for the streamed STL and sampled for the at-end writers; the two defects found (ToSTL hang, goroutine leak) are repaired by fix: commits 637e9cd and 9c26294."),
  "C09": dict(
@@ -69,7 +70,8 @@ CLAIMS = {
        "through the hooks in render/march3.go on an exact scene whose layers need three real batches: the sequential "
        "schedule is judged against the exact predicted mesh (UniTrace.tla), all others must give the identical triangle "
        "sequence. Free runs under GOMAXPROCS 1..NumCPU, slow/yielding Evaluate, earlier and concurrent renders, all "
-       "sinks, are judged by a memo (DetTrace.tla).",
+       "sinks, are judged by a memo (DetTrace.tla). "
+       "Further free runs: NaN holes, a render that sleeps for seconds, 1200 repetitions of a small octree render and simultaneous file writes in a child process, deep (> 2^9 cells) octree and quadtree renders, a cached 2D shape inside an extrusion.",
   design_ref="DESIGN.md section 6 C09", technique="TLC exhaustive interleaving model + forced-schedule replay through a hook scheduler gate + TLC memo validation of output digests",
   note=TB + " Forced schedules cover the evaluation pool; the writer side is covered by C11's schedules. Digests are SHA-256 prefixes."),
  "C10": dict(
@@ -79,7 +81,8 @@ CLAIMS = {
        "is observed for every shape type the library constructs (57: primitives, combinators, cache, voxel, mesh import, text, "
        "wrappers, obj parts): deep digest of the reachable state across Evaluate, the Go race detector and runtime fault "
        "detection in a -race build (one child per shape, cold instance hammered by one goroutine per CPU, plus uniform and "
-       "octree renders), and concurrent values against sequential values; ConcTrace.tla judges the observations.",
+       "octree renders), and concurrent values against sequential values; ConcTrace.tla judges the observations. "
+       "For the one shape that keeps state, CacheConc.tla's schedules (every interleaving of its critical sections) are forced on the real Cache2D through a gated operand; per shape two simultaneous renders are compared with the render that ran alone.",
   design_ref="DESIGN.md section 6 C10", technique="TLC model checking of access interleavings + race-detector / deep-digest observation of every shape type judged by a TLC trace spec",
   note=TB + " The race detector sees only races in the schedules run; the defect found (Cache2D) is repaired by fix: commit 53d59b1."),
  "C13": dict(
@@ -139,7 +142,8 @@ CLAIMS = {
        "non-uniform scale, loft, rounded extrusion, screw; twist and screw handedness markers; blends <= min and symmetric; voxel "
        "corner / range laws) and judged by LawTrace.tla. Blend.tla: PolyMin/PolyMax exact on a rational grid, all laws of the property, "
        "every case replayed on the real functions. Cache.tla: every query history of length <= 5 over 3 points (two equal as map "
-       "keys) replayed against the real Cache2D over a counting spy.",
+       "keys) replayed against the real Cache2D over a counting spy. "
+       "CacheConc.tla models the cache as written (lookup under the lock, wrapped Evaluate outside it, store under the lock); every interleaving of 2-3 callers x 2-3 queries is forced on the real Cache2D through a gated operand and judged by CacheConcTrace.tla.",
   design_ref="DESIGN.md section 6 C02, sections 3 and 10", technique="exact-lattice denotation as reference interpreter + replay + TLC trace validation; TLC-exact rational blend laws; TLC history enumeration for the cache; measured node laws judged by a TLC trace spec",
   note=TB + " Node laws off the lattice are measured numerics (seeded) judged, not computed, by TLC."),
  "C03": dict(
@@ -235,7 +239,8 @@ CLAIMS = {
        "{min, PolyMin(k), k in 1/2, 3, 12} and evaluates the transcription of UnionSDF2.Evaluate against the minimum over all "
        "operands in outward-rounded exact arithmetic. Every exported case is executed on the real MinMaxDist2 / Overlap / "
        "Union2D(...).Evaluate / (*UnionSDF2).EvaluateSlow at every window point, seeded random dyadic and float boxes and real "
-       "operand sets are added, and BoxTrace.tla / UnionTrace.tla judge each real observation against the definition.",
+       "operand sets are added, and BoxTrace.tla / UnionTrace.tla judge each real observation against the definition. "
+       "Random real operand sets include nil operands, operands with loose or empty boxes (Cut2D / Difference2D / Intersect2D), nested unions whose blend is set afterwards and tiny shapes; EvaluateSlow itself is compared with the minimum over the operands as passed, and a difference is the recorded limitation only where the harness establishes that the operand holding the minimum undercuts the distance to its own box.",
   design_ref="DESIGN.md section 6 C16 and section 9", technique="TLC exhaustive lattice enumeration + replay into the real functions + TLC trace validation (definition as oracle; code transcription as drift)",
   note=TB + " Two genuine defects found on the unchanged tree are listed in known_findings.json (Box3 edge regions; pruning under a blend); "
        "sign equality under a blend is decided only where the sign is certain (|value| > 1e-9)."),
